@@ -105,7 +105,7 @@ where
             if i > 0 {
                 pw = pw.mul(&xd);
             }
-            if !in_range(&pw, 900) || !in_range(&pw.mul(&d(ci)), 900) {
+            if !in_range(&pw, 900) || !in_range(&pw.mul(&d(ci)), 900) || !in_range(&d(ci), 900) {
                 return false;
             }
         }
